@@ -1,11 +1,7 @@
 import json, os, subprocess
 
 SPEC = {
-<<<<<<< HEAD
-    "lean_modules": ["SemaModel.C02.Props", "SemaModel.Compose.Props", "SemaModel.Compose.RankProps"],
-=======
-    "lean_modules": ["SemaModel.C02.Props", "SemaModel.Compose.Props", "SemaModel.C02.Tie"],
->>>>>>> ag-t1ext2
+    "lean_modules": ["SemaModel.C02.Props", "SemaModel.Compose.Props", "SemaModel.Compose.RankProps", "SemaModel.C02.Tie"],
     "lean_dirs": ["SemaModel/C02", "SemaModel/Compose"],
     "harness": "c02",
     "harness_args": {"quick": ["-shards", 48, "-batches", 14, "-searches", 18, "-searchx", 6, "-rank", 200],
@@ -22,18 +18,15 @@ SPEC = {
         "Sema.Compose.Compose_step", "Sema.Compose.Compose_inv_history", "Sema.Compose.Compose_insert_fresh",
         "Sema.Compose.Compose_rejected_noop", "Sema.Compose.Compose_filter_state", "Sema.Compose.Compose_filter_exact",
         "Sema.Compose.Compose_select_star", "Sema.Compose.Compose_write_read", "Sema.Compose.Compose_histOK_of_final",
-<<<<<<< HEAD
         # the composition extended to ranking queries: + C04 (flat store), C05 (text index), C06 (hybrid merge) — SemaModel/Compose/Rank*.lean
         "Sema.Compose.Compose_rank_step", "Sema.Compose.Compose_rank_rejected_noop", "Sema.Compose.Compose_rank_inv_history",
         "Sema.Compose.Compose_flat_state", "Sema.Compose.Compose_flat_exact", "Sema.Compose.Compose_flat_count",
         "Sema.Compose.Compose_flat_no_closer", "Sema.Compose.Compose_text_state", "Sema.Compose.Compose_text_exact",
         "Sema.Compose.Compose_hybrid_state", "Sema.Compose.Compose_hybrid",
-=======
         # tie theorems (SemaModel/C02/Tie.lean, notes/T1ext.md section 7): model functions = definitions generated from the Go source
         "Sema.C02.C02_tie_getOperation", "Sema.C02.C02_tie_getOperation_prevErr", "Sema.C02.C02_tie_getOperation_curErr",
         "Sema.C02.C02_tie_getOperation_ok", "Sema.C02.C02_tie_toChange", "Sema.C02.C02_tie_toArrChange",
         "Sema.C02.C02_tie_search_arms", "Sema.C02.C02_tie_search_range", "Sema.C02.C02_tie_search_inRange_err",
->>>>>>> ag-t1ext2
     ],
     "trusted_base": [
         "SemaModel/Compose/RankModel.lean (the combined model extended by the ranking indexes: per vectorFlat entry the set of (node id, vector) pairs, per text entry C05's index, both fed by the same change stream; C04's flat search, C05's text search and C02's filter leaves under C06's searchParallel / back-fill / paging) is tied to the code by a third correspondence run: the compiled model (`semadriver C02 rank`) answers histories on real shards with an integer, a vectorFlat (2-d integer grid, squared Euclidean: exact, ties frequent) and a text index (tokens from the real bleve analyser, idf table from Go's math.Log10) — every write, a dump of the flat bucket and of the text postings after every batch, plain and hybrid `searchr` requests compared modulo ties (groups of equal hybrid score; a tie cut by a plain query's limit by size only); vectors, distances, scores and weights are abstract in every theorem, the driver instantiates them with grid coordinates, exact naturals and IEEE float32 bit patterns; quantizer none, vector dimension = index dimension (C18), rejected batches are not in this stream",
